@@ -77,8 +77,8 @@ class H:
     def __init__(self, name, src, entry, link=(), variants=None, defines=None, unwind=None, unwindset=None,
                  cbmc=(), tier='quick', timeout=300, route='B', functions=(), stubs=(), assumptions=(),
                  bounds='', checks=(), opt='-O1', backends=('default',), diff_runs=40, override=(),
-                 objbits=None, keep=(), tvariants=None, csrc=(), slice_formula=True, include_dirs=(), global_ctors=False, ubsan=True):
-        self.global_ctors = global_ctors; self.ubsan = ubsan
+                 objbits=None, keep=(), tvariants=None, memunwind=72, noop=(), csrc=(), slice_formula=True, include_dirs=(), global_ctors=False, ubsan=True):
+        self.global_ctors = global_ctors; self.ubsan = ubsan; self.memunwind = memunwind; self.noop = list(noop)
         self.name = name; self.src = src; self.entry = entry; self.link = list(link)
         self.variants = variants or [{}]; self.tvariants = tvariants  # thorough-tier variants (default: same)
         self.defines = defines or {}
@@ -153,15 +153,20 @@ def parse_cbmc(out):
     return verdict, props
 
 
-def cbmc_base(h, objbits=None):
+def cbmc_base(h, objbits=None, variant=None):
     a = ['--drop-unused-functions', '--no-standard-checks', '--no-malloc-may-fail', '--unwinding-assertions',
          '--no-built-in-assertions' if False else '--verbosity', '6']
     if h.slice_formula:
         a.append('--slice-formula')
     if h.unwind is not None:
         a += ['--unwind', str(h.unwind)]
+    us = []
+    if h.route == 'B' and h.memunwind:
+        us = ['%s:%d' % (l, h.memunwind) for l in ('ll_memcpy.0', 'll_memmove.0', 'll_memmove.1', 'll_memset.0', 'memcmp.0', 'strlen.0')]
     if h.unwindset:
-        a += ['--unwindset', h.unwindset]
+        us.append(h.unwindset(variant or {}) if callable(h.unwindset) else h.unwindset)
+    if us:
+        a += ['--unwindset', ','.join(us)]
     if h.objbits or objbits:
         a += ['--object-bits', str(h.objbits or objbits)]
     for c in h.checks:
@@ -191,16 +196,17 @@ def backend_env(b, work):
     return env
 
 
-def run_cbmc_sweep(h, files, entry, work, extra=(), timeout=None):
+def run_cbmc_sweep(h, files, entry, work, extra=(), timeout=None, variant=None):
     """run cbmc on each configured back end in parallel; first conclusive answer wins"""
     timeout = timeout or h.timeout
+    if os.environ.get("VERIF_TIMEOUT"): timeout = int(os.environ["VERIF_TIMEOUT"])
     results = {}
     procs = {}
     lock = threading.Lock()
     done = threading.Event()
 
     def one(b):
-        cmd = ['cbmc'] + files + ['--function', entry] + cbmc_base(h) + BACKENDS[b] + list(extra)
+        cmd = ['cbmc'] + files + ['--function', entry] + cbmc_base(h, variant=variant) + BACKENDS[b] + list(extra)
         env = backend_env(b, work)
         t0 = time.time()
 
@@ -283,10 +289,11 @@ class Job:
         lls = [compile_ir(src, defs, w, h.opt, overlay_rules=False, ubsan=h.ubsan)]
         for l in h.link:
             lls.append(compile_ir(resolve_src(l, self.hdir), {k: v for k, v in defs.items() if k.startswith('VERIF_')}, w, h.opt, ubsan=h.ubsan))
+        lls.append(compile_ir(os.path.join(TOOL, 'models', 'stl_models.cpp'), {}, w, h.opt, overlay_rules=False, ubsan=False))
         ovs = [compile_ir(resolve_src(o, self.hdir), defs, w, h.opt, overlay_rules=False, ubsan=h.ubsan) for o in h.override]
         linked = os.path.join(w, 'linked.bc')
         red = os.path.join(w, 'red.bc'); redll = os.path.join(w, 'red.ll')
-        rkey = sha('|'.join(lls) + '#' + '|'.join(ovs) + '#' + h.entry + ','.join(h.keep) + str(h.global_ctors) + 'r1')
+        rkey = sha('|'.join(lls) + '#' + '|'.join(ovs) + '#' + h.entry + ','.join(h.keep) + str(h.global_ctors) + '|'.join(h.noop) + 'r2')
         rcache = os.path.join(CACHE, 'red-' + rkey + '.bc')
         if os.path.exists(rcache):
             shutil.copy(rcache, red)
@@ -299,18 +306,27 @@ class Job:
         if rc != 0:
             raise Inconclusive('llvm-link failed:\n' + out[-3000:])
         api = ','.join([h.entry] + h.keep)
+        # textual IR edits (all three builds of the harness see the same edited module):
+        #  - dynamic initialisers of unrelated globals are not executed by CBMC (it starts at the entry function); drop them
+        #    unless the harness asks for them. Harnesses initialise what they need explicitly.
+        #  - h.noop: void functions (regex on the mangled name) whose bodies are replaced by `ret void` (listed in evidence as stubs)
+        lk = os.path.join(w, 'linked.ll')
+        rc, out, _, _ = run(['llvm-dis-14', linked, '-o', lk], timeout=300)
+        if rc != 0:
+            raise Inconclusive('llvm-dis failed:\n' + out[-3000:])
+        txt = open(lk).read()
         if not h.global_ctors:
-            # dynamic initialisers of unrelated globals are not executed by CBMC (it starts at the entry function);
-            # drop them in all three builds so that they agree. Harnesses initialise what they need explicitly.
-            lk = os.path.join(w, 'linked.ll')
-            rc, out, _, _ = run(['llvm-dis-14', linked, '-o', lk], timeout=300)
-            if rc != 0:
-                raise Inconclusive('llvm-dis failed:\n' + out[-3000:])
-            with open(lk) as f, open(lk + '.2', 'w') as g:
-                for ln in f:
-                    if ln.startswith(('@llvm.global_ctors', '@llvm.global_dtors', '@llvm.used', '@llvm.compiler.used')): continue
-                    g.write(ln)
-            os.replace(lk + '.2', lk); linked = lk
+            txt = '\n'.join(ln for ln in txt.split('\n') if not ln.startswith(('@llvm.global_ctors', '@llvm.global_dtors', '@llvm.used', '@llvm.compiler.used')))
+        nooped = []
+        for rx in h.noop:
+            pat = re.compile(r'^(define [^\n]*?\bvoid @"?(' + rx + r')"?\([^\n]*\{)\n.*?^\}$', re.M | re.S)
+            def rep(mm):
+                nooped.append(mm.group(2)); return mm.group(1) + '\n  ret void\n}'
+            txt = pat.sub(rep, txt)
+            if not any(re.fullmatch(rx, n) for n in nooped):
+                raise Inconclusive('noop stub pattern matched no void function: ' + rx)
+        self.res['noop_stubs'] = nooped
+        open(lk, 'w').write(txt); linked = lk
         rc, out, _, _ = run(['opt-14', '-internalize', '-internalize-public-api-list=' + api, '-globaldce', linked, '-o', red], timeout=300)
         if rc != 0:
             raise Inconclusive('opt failed:\n' + out[-3000:])
@@ -413,7 +429,7 @@ class Job:
             if h.route == 'B': self.build_B()
             else: self.build_A()
             r['build_s'] = round(time.time() - t0, 2)
-            win, allr = run_cbmc_sweep(h, self.cfiles, self.entry, self.work, extra=self.cdefs())
+            win, allr = run_cbmc_sweep(h, self.cfiles, self.entry, self.work, extra=self.cdefs(), variant=self.variant)
             r['backend'] = win['backend']; r['solver_wall_s'] = round(win['wall'], 2); r['rss_kb'] = win['rss_kb']
             r['checker_cmd'] = win['cmd']
             r['backends_tried'] = {b: dict(rc=str(x['rc']), wall=round(x['wall'], 1), verdict=x['verdict']) for b, x in allr.items()}
@@ -428,11 +444,12 @@ class Job:
             props = win['props']
             wit = [p for p in props if p[1].startswith('WITNESS:')]
             real = [p for p in props if not p[1].startswith('WITNESS:')]
-            r['properties_checked'] = len(real); r['witnesses'] = len(wit)
+            r['properties_checked'] = len(real); r['witnesses'] = len(set(p[1] for p in wit))
             unw = [p for p in real if 'unwinding assertion' in p[1] and p[2] != 'SUCCESS']
             if unw:
                 raise Inconclusive('unwinding bound too small: %s' % unw[:3])
-            vac = [p for p in wit if p[2] != 'FAILURE']
+            confirmed = set(p[1] for p in wit if p[2] == 'FAILURE')   # the compiler may duplicate a witness on several paths: one reachable instance suffices
+            vac = [p for p in wit if p[1] not in confirmed]
             bad = [p for p in real if p[2] != 'SUCCESS']
             if (vac or not wit) and not bad:
                 raise Inconclusive('vacuous harness: witness not reachable / missing: %s' % (vac[:3] or 'no VREACH/VWITNESS in harness'))
@@ -466,7 +483,7 @@ class Job:
         if pid_prop:
             hh = H(h.name, h.src, h.entry); hh.__dict__.update(h.__dict__); hh.slice_formula = False; hh.backends = [r['backend'] if r['backend'] in ('default', 'cadical') else 'default']
             extra = self.cdefs() + ['-D', 'VERIF_RECORD_TAPE', '-D', 'VERIF_TAPE_MAX=%d' % TAPE_MAX, '--trace', '--property', pid_prop]
-            win, _ = run_cbmc_sweep(hh, self.cfiles, self.entry, self.work, extra=extra, timeout=max(h.timeout, 600))
+            win, _ = run_cbmc_sweep(hh, self.cfiles, self.entry, self.work, extra=extra, timeout=max(h.timeout, 600), variant=self.variant)
             if win['verdict'] != 'failed':
                 raise Inconclusive('could not regenerate counterexample trace for %s: %s' % (pid_prop, win['out'][-800:]))
             tape = tape_from_trace(win['out'])
